@@ -12,7 +12,14 @@ HERE = os.path.dirname(os.path.abspath(__file__))
 
 # ---------------------------------------------------------------------------------------------- C16
 def dig(g):
-    return hashlib.sha1(json.dumps(record.project(g), sort_keys=True).encode()).hexdigest()[:16]
+    """digest of a permutation result: which atom (tag) got which label, with its chemically meaningful entries, in which listing
+    order, and the bonds -- scratch data that another call left on the argument in between is not part of 'the same result'"""
+    pr = record.project(g)
+    if "bad" in pr:
+        return "bad:" + pr["bad"][:40]
+    core = {"n": pr["n"], "labs": pr["labs"], "order": pr["order"], "adj": pr["adj"], "atoms": [[a["tag"], a["mattr"]] for a in pr["atoms"]],
+            "edges": [[e[0], e[1], e[3]] for e in pr["edges"]]}
+    return hashlib.sha1(json.dumps(core, sort_keys=True).encode()).hexdigest()[:16]
 
 
 @check("C16")
